@@ -21,11 +21,11 @@ RULE = ('cases = (series, ptype | opt,start) calls of the real functions. Exhaus
 ASSUMPTIONS = ['NaN-free real input', 'constant series are outside the statement (counted, not judged)',
                'oracle vf/oracles/peaks.py is correct (25-line run-length reference)']
 EXHAUSTIVE = {'quick': 'all sequences over {0,1,2,3,4} of length 2..7 x {float, int, shifted -2} x ptype {all,max,min}',
-              'thorough': 'all sequences over {0,1,2,3,4} of length 2..8 x {float, int, shifted -2} x ptype {all,max,min}'}
+              'thorough': 'all sequences over {0,1,2,3,4} of length 2..8 x {float, int, shifted -2} and of length 9 as float x ptype {all,max,min}'}
 MIN_EVALS = {'quick': {'peaks.all==reference': 200000, 'peaks.max==reference': 200000, 'peaks.min==reference': 200000,
                        'ncyc==reference': 2000, 'peaks.assertions': 200000},
-             'thorough': {'peaks.all==reference': 1000000, 'peaks.max==reference': 1000000,
-                          'peaks.min==reference': 1000000, 'ncyc==reference': 20000, 'peaks.assertions': 1000000}}
+             'thorough': {'peaks.all==reference': 2500000, 'peaks.max==reference': 2500000,
+                          'peaks.min==reference': 2500000, 'ncyc==reference': 20000, 'peaks.assertions': 2500000}}
 
 CTX = None
 
@@ -172,7 +172,7 @@ def random_series(rng, n):
 def run_shard(ctx):
     eqsig = core.import_eqsig()
     install(ctx)
-    maxlen = 7 if ctx.tier == 'quick' else 8
+    maxlen = 7 if ctx.tier == 'quick' else 9      # thorough: length 9 as float64 only
     # -- exhaustive part: shard by position in the enumeration ------------------------------------------------
     idx = 0
     n_enum = 0
@@ -183,7 +183,7 @@ def run_shard(ctx):
             if idx % ctx.nshards != ctx.shard:
                 continue
             nontriv = len(set(seq)) > 1
-            for variant in ((0, 1, 2, 3) if L <= 6 else (0, 1, 2)):
+            for variant in ((0, 1, 2, 3) if L <= 6 else ((0, 1, 2) if L <= 8 else (0,))):
                 if variant == 0:
                     s = np.array(seq, dtype=float)
                 elif variant == 1:
